@@ -114,6 +114,16 @@ func vfFaultScenarios(tier string) []*vfRouteScenario {
 		{IDs: []int64{10}, Tgt: []int{1}, High: 11},
 		{IDs: []int64{11}, Tgt: []int{1}, High: 12},
 	}}, 1, 1)
+	// back-pressure when the stream breaks: the only target is slow (accepts a message only on accept:1), its hand-off
+	// channel holds one message, the source's receive loop is waiting in the hand-off - then the target stream breaks and
+	// the shard reconnects
+	add("1x1-back-pressure-breakT", 1, 1, [][]vfBatch{{
+		{IDs: []int64{10}, Tgt: []int{1}, High: 11},
+		{IDs: []int64{11}, Tgt: []int{1}, High: 12},
+		{IDs: []int64{12}, Tgt: []int{1}, High: 13},
+	}}, 0, 1, "breakT")
+	out[len(out)-1].ChanCap = 1
+	out[len(out)-1].Gated = []int{1}
 	if tier == "thorough" {
 		add("1x2-two-faults", 1, 2, two, 0, 2)
 		add("1x2-multi-fault", 1, 2, [][]vfBatch{{
@@ -128,11 +138,12 @@ func vfFaultScenarios(tier string) []*vfRouteScenario {
 	return out
 }
 
-// TestVerifC03Faults: the safety half of C03 (acknowledgements on one source stream never decrease and never
+// TestVerifC03Faults: C03 over the fault scenarios of C04 - the bounded-liveness half (after the reconnections the fair
+// closing phase still ends with the final watermark acknowledged) and the safety half of C03 (acknowledgements on one source stream never decrease and never
 // exceed the largest exclusive high watermark received on that stream) over the fault scenarios of C04: a
 // reconnected source stream starts with a lower high watermark than targets may re-acknowledge.
 func TestVerifC03Faults(t *testing.T) {
-	vfOnlySigs = map[string]bool{"ack-decreased": true, "ack-above-high": true}
+	vfOnlySigs = map[string]bool{"ack-decreased": true, "ack-above-high": true, "final-ack-never-arrives-after-reconnects": true}
 	vfFaultCheck(t, "C03", "TestVerifC03Faults")
 }
 
